@@ -144,6 +144,15 @@ type fileCtx struct {
 
 func (c *fileCtx) pick(l []string) string { return l[c.r.Intn(len(l))] }
 
+// pickDefault: a default of the family, or (one time in six) the empty string, which is a value
+// like any other: stated nearer, it replaces an inherited default.
+func (c *fileCtx) pickDefault(f family) string {
+	if c.r.Intn(6) == 0 {
+		return ""
+	}
+	return c.pick(defaultsOf[f])
+}
+
 func (c *fileCtx) name(stem string) string {
 	*c.n++
 	return fmt.Sprintf("%s%d", stem, *c.n)
@@ -202,7 +211,7 @@ var (
 	lengths    = []string{"1..10", "2..5", "3", "min..4", "0..max", "1..2|4..8", "20..30", "0..5", "7"}
 	intRanges  = []string{"0..100", "1..10", "5", "min..50", "-5..5", "1..3|7..9", "200..300", "0..max", "2..8", "4..6"}
 	decRanges  = []string{"1.5..2.5", "0..10", "1.25", "min..3", "-1.5..1.5", "2..3|5..7.5", "0.001..0.002"}
-	unitsPool  = []string{"m", "s", "kg"}
+	unitsPool  = []string{"m", "s", "kg", "", ""}
 	pathPool   = []string{"../x", "/m0:top/m0:k", "../../y"}
 	enumNames  = []string{"e0", "e1", "e2", "e3"}
 	bitNames   = []string{"b0", "b1", "b2"}
@@ -367,7 +376,7 @@ func (c *fileCtx) typedef(name string) {
 		fmt.Fprintf(c.sb, " units \"%s\";", c.pick(unitsPool))
 	}
 	if c.r.Intn(100) < 30 {
-		fmt.Fprintf(c.sb, " default \"%s\";", c.pick(defaultsOf[f]))
+		fmt.Fprintf(c.sb, " default \"%s\";", c.pickDefault(f))
 	}
 	c.sb.WriteString(" }\n")
 }
@@ -420,7 +429,7 @@ func (c *fileCtx) leaf() {
 	if c.r.Intn(4) == 0 {
 		fmt.Fprintf(c.sb, "leaf-list %s { %s", c.name("ll"), c.typeStmt(f, 0))
 		for i := c.r.Intn(3); i > 0 && c.r.Intn(2) == 0; i-- {
-			fmt.Fprintf(c.sb, " default \"%s\";", c.pick(defaultsOf[f]))
+			fmt.Fprintf(c.sb, " default \"%s\";", c.pickDefault(f))
 		}
 		if c.r.Intn(4) == 0 {
 			fmt.Fprintf(c.sb, " min-elements %d;", c.r.Intn(3))
@@ -430,7 +439,7 @@ func (c *fileCtx) leaf() {
 	}
 	fmt.Fprintf(c.sb, "leaf %s { %s", c.name("x"), c.typeStmt(f, 0))
 	if c.r.Intn(5) == 0 {
-		fmt.Fprintf(c.sb, " default \"%s\";", c.pick(defaultsOf[f]))
+		fmt.Fprintf(c.sb, " default \"%s\";", c.pickDefault(f))
 	}
 	if c.r.Intn(5) == 0 {
 		fmt.Fprintf(c.sb, " mandatory %s;", []string{"true", "false"}[c.r.Intn(2)])
@@ -722,10 +731,10 @@ func oddCase(r *rand.Rand, id string) tcase {
 		if r.Intn(4) > 0 {
 			fmt.Fprintf(&sb, "typedef %s { %s", n, pick())
 			if r.Intn(3) == 0 {
-				sb.WriteString(" default \"1\";")
+				sb.WriteString([]string{" default \"1\";", " default \"\";"}[r.Intn(2)])
 			}
 			if r.Intn(3) == 0 {
-				sb.WriteString(" units \"u\";")
+				sb.WriteString([]string{" units \"u\";", " units \"\";"}[r.Intn(2)])
 			}
 			sb.WriteString(" }\n")
 		}
@@ -856,10 +865,18 @@ func chainCase(r *rand.Rand, id string) tcase {
 	extras := func(level int) string {
 		var b strings.Builder
 		if p(35) {
-			fmt.Fprintf(&b, " units \"u%d\";", level)
+			if p(30) {
+				b.WriteString(" units \"\";") // explicitly no units: hides what the chain below states
+			} else {
+				fmt.Fprintf(&b, " units \"u%d\";", level)
+			}
 		}
 		if p(35) {
-			fmt.Fprintf(&b, " default \"%s\";", defaultsOf[f][r.Intn(len(defaultsOf[f]))])
+			if p(25) {
+				b.WriteString(" default \"\";")
+			} else {
+				fmt.Fprintf(&b, " default \"%s\";", defaultsOf[f][r.Intn(len(defaultsOf[f]))])
+			}
 		}
 		return b.String()
 	}
@@ -1002,12 +1019,12 @@ func revisionCase(r *rand.Rand, id string, history bool) tcase {
 			n++
 			fmt.Fprintf(&sb, "typedef mine%d { type %s:t {%s }", n, q, siteRestrictions[r.Intn(len(siteRestrictions))])
 			if p(30) {
-				fmt.Fprintf(&sb, " units \"mu%d\";", n)
+				fmt.Fprintf(&sb, " units \"%s\";", []string{fmt.Sprintf("mu%d", n), ""}[r.Intn(2)])
 			}
 			sb.WriteString(" }\n")
 			fmt.Fprintf(&sb, "typedef mine2%d { type mine%d {%s }", n, n, siteRestrictions[r.Intn(len(siteRestrictions))])
 			if p(30) {
-				fmt.Fprintf(&sb, " default \"d%d\";", n)
+				fmt.Fprintf(&sb, " default \"%s\";", []string{fmt.Sprintf("d%d", n), ""}[r.Intn(2)])
 			}
 			sb.WriteString(" }\n")
 			fmt.Fprintf(&sb, "leaf direct%d { type %s:t; }\n", n, q)
